@@ -163,6 +163,9 @@ where
             "as-checked".to_string()
         }
         Ok(_) => {
+            if matches!(&fu, Ok(Ok(m)) if m != "skipped") {
+                exercised("trained", b);
+            }
             let fc = catch_unwind(AssertUnwindSafe(|| fit_c(p.check_ref().ok().unwrap())));
             let same = match (&fu, &fc) {
                 (Ok(a), Ok(c)) => a == c,
@@ -964,12 +967,71 @@ pub fn run(em: &mut Em, rng: &mut Rng) {
         let (mi, ms, sg) = (cg[t[0]], fg[t[1]], fg[t[2]]);
         em.count("builder:Platt");
         em.case(format!("grid b=Platt maxiter={} minstep={} sigma={}", mi, h(ms), h(sg)), |ctx| {
-            train_always();
+            // (not `train_always`: with minstep = 0 the line search of Platt scaling has no exit when no step decreases the
+            //  objective, e.g. sigma = f64::MAX — checked and unchecked form hang alike)
+            set_moderate(&[ms, sg]);
             let p = Platt::<f64, FirstColumn>::params().maxiter(mi).minstep(ms).sigma(sg);
             let viol = first(&[(mi >= 1, "maxiter>=1"), (nonneg(ms), "minstep>=0"), (nonneg(sg), "sigma>=0")]);
             let ds = DatasetBase::new(xs(), ys_b());
             probe(ctx, "Platt", || p.clone(), viol, ms.is_finite() && sg.is_finite(), |p| dbg(p), |c| dbg(c), |e: PlattError| dbg(&e),
                 |p| res!(p.fit_with(FirstColumn, &ds)), |c| res!(c.fit_with(FirstColumn, &ds)))
+        });
+    }
+    // ---- negative zero (oracle only: the model's float domain has no -0.0).  The documentation never mentions
+    //      -0.0; per field the verdict of TODAY's guard is the reading (a guard written `x < 0` accepts it, one
+    //      written `x.is_negative()` reads the sign bit and rejects it).  A rewrite of one spelling into the other
+    //      changes which finite values pass checking and is reported here.
+    {
+        let nz = -0.0f64;
+        let mut one = |em: &mut Em, field: &str, accepts_today: bool, verdict: &dyn Fn() -> bool| {
+            em.count("negzero_fields");
+            em.case(format!("#negzero field={}", field), |ctx| {
+                let ok = verdict();
+                ctx.require(ok == accepts_today, "ok_iff_in_range", &format!("negzero:{}:{}", field, if ok { "now-accepted" } else { "now-rejected" }),
+                    || format!("{} = -0.0 is {} by checking; the reading of the documented range for -0.0 (the guard as of the pinned tree) is {}", field, if ok { "accepted" } else { "rejected" }, if accepts_today { "accepted" } else { "rejected" }));
+                "-".to_string()
+            });
+        };
+        one(em, "Platt.minstep", false, &|| Platt::<f64, FirstColumn>::params().minstep(nz).check_ref().is_ok());
+        one(em, "Platt.sigma", false, &|| Platt::<f64, FirstColumn>::params().sigma(nz).check_ref().is_ok());
+        one(em, "Gmm.reg_covar", true, &|| linfa_clustering::GaussianMixtureModel::<f64>::params_with_rng(2, rng7()).reg_covariance(nz).check_ref().is_ok());
+        one(em, "ElasticNet.penalty", false, &|| linfa_elasticnet::ElasticNet::<f64>::params().penalty(nz).check_ref().is_ok());
+        one(em, "ElasticNet.l1_ratio", true, &|| linfa_elasticnet::ElasticNet::<f64>::params().l1_ratio(nz).check_ref().is_ok());
+        one(em, "ElasticNet.tolerance", false, &|| linfa_elasticnet::ElasticNet::<f64>::params().tolerance(nz).check_ref().is_ok());
+        one(em, "Logistic.alpha", true, &|| linfa_logistic::LogisticRegression::<f64>::default().alpha(nz).check_ref().is_ok());
+        one(em, "Tweedie.alpha", false, &|| linfa_linear::TweedieRegressor::<f64>::params().alpha(nz).check_ref().is_ok());
+        one(em, "Tweedie.power", true, &|| linfa_linear::TweedieRegressor::<f64>::params().power(nz).check_ref().is_ok());
+        one(em, "Svm.eps", false, &|| linfa_svm::Svm::<f64, bool>::params().eps(nz).check_ref().is_ok());
+        one(em, "GaussianNb.var_smoothing", false, &|| linfa_bayes::GaussianNb::<f64, usize>::params().var_smoothing(nz).check_ref().is_ok());
+        one(em, "MultinomialNb.alpha", false, &|| linfa_bayes::MultinomialNb::<f64, usize>::params().alpha(nz).check_ref().is_ok());
+        one(em, "Ftrl.l1_ratio", true, &|| linfa_ftrl::Ftrl::<f64>::params_with_rng(rng7()).l1_ratio(nz).check_ref().is_ok());
+        one(em, "Ftrl.l2_ratio", true, &|| linfa_ftrl::Ftrl::<f64>::params_with_rng(rng7()).l2_ratio(nz).check_ref().is_ok());
+        one(em, "Ftrl.alpha", false, &|| linfa_ftrl::Ftrl::<f64>::params_with_rng(rng7()).alpha(nz).check_ref().is_ok());
+        one(em, "Ftrl.beta", false, &|| linfa_ftrl::Ftrl::<f64>::params_with_rng(rng7()).beta(nz).check_ref().is_ok());
+        one(em, "PlsRegression.tolerance", false, &|| linfa_pls::PlsRegression::<f64>::params(1).tolerance(nz).check_ref().is_ok());
+        one(em, "TSne.perplexity", false, &|| linfa_tsne::TSneParams::embedding_size_with_rng(2, rng7()).perplexity(nz).check_ref().is_ok());
+        one(em, "TSne.approx_threshold", false, &|| linfa_tsne::TSneParams::embedding_size_with_rng(2, rng7()).approx_threshold(nz).check_ref().is_ok());
+        one(em, "FastIca.tol", true, &|| linfa_ica::fast_ica::FastIca::<f64>::params().tol(nz).check_ref().is_ok());
+        one(em, "Hierarchical.max_distance", false, &|| linfa_hierarchical::HierarchicalCluster::<f64>::default().max_distance(nz).check_ref().is_ok());
+        one(em, "CountVectorizer.min_freq", true, &|| linfa_preprocessing::CountVectorizer::params().document_frequency(-0.0f32, 0.5).check_ref().is_ok());
+        one(em, "DecisionTree.min_impurity_decrease", false, &|| linfa_trees::DecisionTree::<f64, usize>::params().min_impurity_decrease(nz).check_ref().is_ok());
+    }
+    // ---- documented ranges of parameters NO guard reads (oracle only: the translated `Params` holds exactly the
+    //      fields the guard reads).  Elastic net: the builder's parameter table gives max_iterations `[1, inf)`.
+    for mi in [0u32, 1, 50] {
+        em.count("docrange:ElasticNet.max_iterations");
+        em.case(format!("#docrange field=ElasticNet.max_iterations value={}", mi), |ctx| {
+            let single = linfa_elasticnet::ElasticNet::<f64>::params().max_iterations(mi);
+            let multi = linfa_elasticnet::MultiTaskElasticNet::<f64>::params().max_iterations(mi);
+            let ok = (single.check_ref().is_ok(), multi.check_ref().is_ok());
+            if mi == 0 && (ok.0 || ok.1) {
+                let m = single.fit(&DatasetBase::new(xs(), ys_f())).map(|m| format!("hyperplane {:?} intercept {:?}", m.hyperplane(), m.intercept())).map_err(|e| dbg(&e));
+                ctx.fail("ok_iff_in_range", "ElasticNet:accepted:doc:max_iterations>=1", format!("max_iterations(0) is outside the documented range [1, inf) (hyperparams.rs parameter table) but passes check_ref (single {}, multi {}); fit -> {:?}", ok.0, ok.1, m));
+            }
+            if mi >= 1 && !(ok.0 && ok.1) {
+                ctx.fail("ok_iff_in_range", "ElasticNet:rejected:doc:max_iterations>=1", format!("max_iterations({}) is inside the documented range but is rejected", mi));
+            }
+            "-".to_string()
         });
     }
     em.count_n("fit_not_exercised(extreme valid values)", NOT_EXERCISED.with(|c| c.get()));
